@@ -100,7 +100,7 @@ def describe(v):
         if all(x[0] == "i" and x[1] == x[2] for x in v[1]):
             return ("lit", bytes(x[1] & 255 for x in v[1]))
         return ("?",)
-    if v[0] in ("msg", "hd"):
+    if v[0] in ("msg", "hd", "cbytes", "sbytes", "ctx"):
         return v
     if v[0] == "st" and len(v[1]) == 1:
         return describe(v[1][0])
@@ -134,6 +134,10 @@ class BqModels(Models):
         self.fail_dec = set()         # scenario: the R of these signatures does not decode
         self.force_identity = None    # scenario: outcome of the identity test
         self.inconclusive = False     # a value the verdict depends on left the abstract domain
+        self.eq_tests = []            # (a, b) of every comparison of compressed points
+        self.small_order_tests = []   # arguments of is_small_order / is_weak
+        self.force_eq = None          # scenario: outcome of compressed-point comparisons
+        self.force_small = None       # scenario: outcome of small-order tests
         self.sc_decodes = 0
         self.r_decodes = 0
 
@@ -218,7 +222,7 @@ class BqModels(Models):
                 which = re.search(r"(to_bytes|r_bytes|s_bytes)$", [x for x in names if re.search(r"(to_bytes|r_bytes|s_bytes)$", x)][0]).group(1)
                 if which == "to_bytes":
                     return bytes_of(s, 0, 64)
-                return ("cref", bytes_of(s, 0 if which == "r_bytes" else 32, 32))
+                return ip.intern_const(st, bytes_of(s, 0 if which == "r_bytes" else 32, 32))
             return TOP
         # ------------------------------------------------------------ scalars
         if S(r"(^|::)Scalar::(from_canonical_bytes|from_bits|from_bytes_mod_order)$") and args:
@@ -241,6 +245,9 @@ class BqModels(Models):
             return ("en", ((0, ()), (1, (D(0)[1],))))
         if S(r"(^|::)Scalar::(from_bytes_mod_order_wide|from_hash)$") and args:
             d = D(0)
+            r64 = run_of_bytes(d, 64)
+            if r64 and r64[0][0] == "hd" and r64[1] == 0:
+                return ssym(("h", r64[0][1]))
             if d[0] == "hd":
                 return ssym(("h",) + d[1:])
             if d[0] == "hs":
@@ -347,8 +354,65 @@ class BqModels(Models):
             if a is not None and b is not None:
                 self.identity_tests.append(padd(a, b, -1))
                 return ip.default_value(dty) if "Choice" in dty else I(0, 1)
+        # ------------------------------------------------------------ single signatures: signing and verification equations
+        if S(r"core::convert::Into<[\w:]*ExpandedSecretKey>>::into$") and len(args) == 1:
+            # (&SecretKey).into(): the From impl is written for &[u8; SECRET_KEY_LENGTH] (a named length the generic Into model cannot match)
+            cands = [g for g in ip.F.fns.values() if "mir" in g and re.search(r"impl core::convert::From<&\[u8; [\w:]+\]> for [\w:]*ExpandedSecretKey>::from$", g["path"])]
+            if len(cands) == 1:
+                return ip.call_local(cands[0], list(args), st, depth)
+
+        if S(r"(^|::)clamp_integer$") and args:
+            r = run_of_bytes(D(0), 32)
+            if r:
+                return bytes_of(("clamp", r[0], r[1]), 0, 32)
+        if S(r"(^|::)EdwardsPoint::mul_base$") and args:
+            a = self.as_sp(D(0))
+            return pscale(psym(("B",)), a) if a is not None else TOP
+        if S(r"(^|::)EdwardsPoint::vartime_double_scalar_mul_basepoint$") and len(args) == 3:
+            a, A_, b = self.as_sp(D(0)), self.as_pl(ip, D(1)), self.as_sp(D(2))
+            if a is None or A_ is None or b is None:
+                self.inconclusive = True
+                return TOP
+            return padd(pscale(A_, a), pscale(psym(("B",)), b))
+        m = None
+        for nm in names:
+            m = m or re.search(r"<&'?\w* ?[\w:]*EdwardsPoint as core::ops::(Add|Sub)<&'?\w* ?[\w:]*EdwardsPoint>>::(add|sub)$", nm)
+        if m and len(args) == 2:
+            a, b = self.as_pl(ip, D(0)), self.as_pl(ip, D(1))
+            if a is not None and b is not None:
+                return padd(a, b, -1 if m.group(1) == "Sub" else 1)
+            return TOP
+        if any(re.search(r"<&'?\w* ?[\w:]*Scalar as core::ops::Mul<&'?\w* ?[\w:]*EdwardsPoint>>::mul$|<&'?\w* ?[\w:]*EdwardsPoint as core::ops::Mul<&'?\w* ?[\w:]*Scalar>>::mul$", nm) for nm in names) and len(args) == 2:
+            x, y = D(0), D(1)
+            sc_, pt_ = (self.as_sp(x), self.as_pl(ip, y)) if self.as_sp(x) is not None else (self.as_sp(y), self.as_pl(ip, x))
+            if sc_ is not None and pt_ is not None:
+                return pscale(pt_, sc_)
+            return TOP
+        if S(r"(^|::|<|&)[\w:]*EdwardsPoint as core::ops::Neg>::neg$") and args and self.as_pl(ip, D(0)) is not None:
+            return pscale(self.as_pl(ip, D(0)), sconst(-1))
+        if S(r"(^|::)EdwardsPoint::compress$") and args and self.as_pl(ip, D(0)) is not None:
+            return ("st", (("cbytes", self.as_pl(ip, D(0))),))
+        if S(r"[\w:]*CompressedEdwardsY as core::cmp::PartialEq>::(eq|ne)$|subtle::ConstantTimeEq for [\w:]*CompressedEdwardsY>::ct_eq$|CompressedEdwardsY as subtle::ConstantTimeEq>::ct_eq$") and len(args) == 2:
+            def side(v):
+                v = v[1][0] if v[0] == "st" and len(v[1]) == 1 else v
+                return describe(v)
+            self.eq_tests.append((side(D(0)), side(D(1))))
+            out = I(0, 1) if self.force_eq is None else I(self.force_eq)
+            if S(r"::ne$") and self.force_eq is not None:
+                out = I(1 - self.force_eq)
+            return ("st", (out,)) if "Choice" in dty else out
+        if S(r"(^|::)EdwardsPoint::is_small_order$") and args:
+            self.small_order_tests.append(self.as_pl(ip, D(0)) or D(0))
+            return I(0, 1) if self.force_small is None else I(self.force_small)
+        if S(r"(^|::)Scalar::(as_bytes|to_bytes)$") and args and D(0)[0] == "sp":
+            b = ("sbytes", D(0))
+            return ip.intern_const(st, b) if re.match(r"^&", dty) else b
+        if S(r"ed25519::Signature::from_components$") and len(args) == 2:
+            return ("sigv", describe(D(0)), describe(D(1)))
         # ------------------------------------------------------------ SHA-512
-        if S(r"core::default::Default>::default$|Digest>::new$") and re.search(r"Sha512|CoreWrapper", dty):
+        if S(r"core::default::Default>::default$") and re.search(r"Sha512|CoreWrapper", dty):
+            return ("hs", ())
+        if S(r"Digest>::new$"):
             return ("hs", ())
         if S(r"(Digest|Update)>::(update|chain_update|chain)$") and len(args) == 2 and D(0)[0] == "hs":
             nv = ("hs", D(0)[1] + (describe(D(1)),))
@@ -358,8 +422,12 @@ class BqModels(Models):
             return nv
         if S(r"(Digest|FixedOutput)>::(finalize|finalize_fixed)$") and args and D(0)[0] == "hs":
             return ("hd", D(0)[1])
-        if S(r"core::convert::AsRef<\[u8; 64\]>>::as_ref$|generic_array::GenericArray.*as_ref$|core::convert::Into<\[u8; 64\]>>::into$") and args and D(0)[0] == "hd":
-            return args[0] if args[0][0] in ("ref", "cref") else D(0)
+        if S(r"core::convert::AsRef<\[u8; 64\]>>::as_ref$|generic_array::GenericArray.*(as_ref|as_slice|deref)$|core::convert::Into<\[u8; 64\]>>::into$|core::convert::From<.*GenericArray.*>::from$") and args and D(0)[0] == "hd":
+            # the 64 output bytes of the digest, as symbolic bytes of the source ("hd", inputs)
+            b = bytes_of(D(0), 0, 64)
+            if re.match(r"^&", dty):
+                return ip.unsize(st, ip.intern_const(st, b)) if re.match(r"^&('\w+ )?\[u8\]$", dty) else ip.intern_const(st, b)
+            return b
         # ------------------------------------------------------------ merlin
         if S(r"merlin::(\w+::)?Transcript::new$") :
             return ("tr", (("new", describe(D(0))),))
@@ -441,7 +509,7 @@ def binding(n, ip):
         absorbed = {x[1] for x in tr if isinstance(x, tuple) and len(x) == 2}
         for i in range(n):
             hd = ("hd", (("bytes", ("sig", i), 0, 32), ("bytes", ("vk", i), 0, 32), ("msg", i)))
-            if hd not in absorbed:
+            if hd not in absorbed and ("bytes", hd, 0, 64) not in absorbed:
                 return False, "the RNG that yields z%d was built from a transcript that has not absorbed H(R_%d, A_%d, m_%d)" % (k, i, i, i)
             if ("bytes", ("sig", i), 32, 32) not in absorbed:
                 return False, "the RNG that yields z%d was built from a transcript that has not absorbed the S half of signature %d" % (k, i)
@@ -506,22 +574,28 @@ def show_point(p):
 def show_sym(s):
     if s[0] == "z":
         return "z%d" % s[1]
+    if s[0] == "sc" and s[1][0] == "clamp":
+        return "clamp(%s)" % show_in(("bytes", s[1][1], s[1][2], 32))
     if s[0] == "sc":
-        return "scalar(%s %d bytes %d..)" % (s[1][0], s[1][1], s[2])
+        return "scalar(%s %s bytes %d..)" % (s[1][0], s[1][1] if len(s[1]) > 1 else "", s[2])
     if s[0] == "h":
         return "H(%s)" % ", ".join(show_in(x) for x in s[1])
     return repr(s)
 
 
 def show_in(x):
+    if x[0] == "bytes" and x[1][0] == "hd":
+        return "H(%s)[%d..%d]" % (", ".join(show_in(y) for y in x[1][1]), x[2], x[2] + x[3])
     if x[0] == "bytes":
-        return "%s %d[%d..%d]" % (x[1][0], x[1][1], x[2], x[2] + x[3])
+        return "%s %s[%d..%d]" % (x[1][0], x[1][1] if len(x[1]) > 1 else "", x[2], x[2] + x[3])
     if x[0] == "msg":
         return "msg %d" % x[1]
     if x[0] == "lit":
         return repr(x[1])
     if x[0] == "hd":
         return "H(%s)" % ", ".join(show_in(y) for y in x[1])
+    if x[0] == "cbytes":
+        return "compress(..)"
     return "?"
 
 
